@@ -55,8 +55,9 @@ func Limb() *rapid.Generator[uint64] {
 // including constants of algorithms that were not there when the generators were written.
 
 type dictionary struct {
-	Words []uint64
-	Bigs  []*big.Int
+	Words   []uint64
+	Bigs    []*big.Int
+	Strings [][]byte // string literals of the sources (3..64 bytes): tags, prefixes, separators the code compares and prepends
 }
 
 var (
@@ -72,8 +73,9 @@ func Dict() *dictionary {
 			return
 		}
 		var in struct {
-			Words []string `json:"words"`
-			Bigs  []string `json:"bigs"`
+			Words   []string `json:"words"`
+			Bigs    []string `json:"bigs"`
+			Strings []string `json:"strings"`
 		}
 		if json.Unmarshal(raw, &in) != nil {
 			return
@@ -81,6 +83,11 @@ func Dict() *dictionary {
 		for _, w := range in.Words {
 			if v, ok := new(big.Int).SetString(w, 16); ok && v.BitLen() <= 64 {
 				dict.Words = append(dict.Words, v.Uint64())
+			}
+		}
+		for _, x := range in.Strings {
+			if b, err := hex.DecodeString(x); err == nil && len(b) > 0 {
+				dict.Strings = append(dict.Strings, b)
 			}
 		}
 		for _, b := range in.Bigs {
